@@ -939,7 +939,7 @@ class DCM(np.ndarray):
         if q is None:
             return np.identity(3)
         _assert_numerical_iterable(q, "Quaternion")
-        q = np.copy(q)
+        q = np.array(q, dtype=float)    # A copy of floats: it is normalized in place, also when integers are given
         if q.shape[-1] != 4 or q.ndim > 2:
             raise ValueError(f"Quaternion must be of the form (4,) or (N, 4). Got {q.shape}")
         if q.ndim > 1:
